@@ -43,7 +43,9 @@ SPECS = {
         "stub": STUB_MDP,
     },
     "C19": {
-        "scenarios": [{"name": "collect_on", "runs": {"quick": 300, "thorough": 1000000}, "chunks": {"quick": 2, "thorough": 2}}],
+        "scenarios": [{"name": "collect_on", "runs": {"quick": 300, "thorough": 1000000}, "chunks": {"quick": 2, "thorough": 2}},
+                      {"name": "offpolicy", "runs": {"quick": 100, "thorough": 1000000}, "chunks": {"quick": 1, "thorough": 1}},
+                      {"name": "train", "runs": {"quick": 16, "thorough": 1000000}, "chunks": {"quick": 1, "thorough": 1}}],
         "budget_s": {"quick": 600, "thorough": 1200},
         "rule": "one evaluation = one seeded simulated run; the real LoggingCallback step logic runs inside the real collection loop; after every "
         "iteration each node's logger state is compared with RefLogger fed with the TRUE environment rewards and flags derived by RefMDP from the "
@@ -77,7 +79,8 @@ SPECS = {
         "stub": STUB_MDP[:3] + ["SAC critics = TableCritic (q[s] + w*sum(a)), SAC policy with deterministic update law (known next action and log-prob)"],
     },
     "C10": {
-        "scenarios": [{"name": "offpolicy", "runs": {"quick": 240, "thorough": 1000000}, "chunks": {"quick": 2, "thorough": 2}}],
+        "scenarios": [{"name": "offpolicy", "runs": {"quick": 240, "thorough": 1000000}, "chunks": {"quick": 2, "thorough": 2}},
+                      {"name": "train", "runs": {"quick": 16, "thorough": 1000000}, "chunks": {"quick": 1, "thorough": 1}}],
         "budget_s": {"quick": 600, "thorough": 1200},
         "rule": "one evaluation = one seeded iteration history (reset + 1..6 real iterations, driven from Python exactly as learn scans them); "
         "RefSchedule checks the iteration counter, DQN hard copies on multiples of the interval and frozen targets in between (exact), SAC "
@@ -180,5 +183,19 @@ SPECS = {
                         "file stems contain no dot other than the suffix", "Python-float hyper-parameters compared after float32 rounding"],
         "real": ["lerax Serializable.serialize/deserialize, MLPActorCriticPolicy / MLPQPolicy / MLPSACPolicy constructors and inference, equinox serialisation, the real file system (temp dir)"],
         "stub": ["SimMDP variants only as carriers of action/observation spaces", "FaultyOpen (short write + ENOSPC)"],
+    },
+    "C11": {
+        "scenarios": [{"name": "train", "runs": {"quick": 24, "thorough": 1000000}, "chunks": {"quick": 1, "thorough": 1}}],
+        "budget_s": {"quick": 900, "thorough": 1800},
+        "rule": "one evaluation = one seeded configuration (algorithm x environment x observer set x total_timesteps x policy/learn keys x tables x "
+        "host-fault schedule): the real learn() is run observer-free, repeated, with another key, with the observer set (recording / console / "
+        "TensorBoard / progress bar / callback list / video through the simulated executor, injected back-end failure, simulated wall clock) and, for "
+        "a fraction, in a fresh interpreter under another PYTHONHASHSEED; all trained array leaves are compared bit for bit; non-trivial = a "
+        "fault or total_timesteps not a multiple of the iteration size; distinct = distinct (class, fired kinds, total)",
+        "assumptions": ["bit-equality is demanded of parameters; should XLA re-associate because an observer changes the program the check downgrades to 1e-6 relative and reports the probe",
+                        "XLA's own scheduling of host callbacks is not controlled; the one place lerax creates concurrency (video executor) is"],
+        "real": ["lerax learn/reset/iteration of PPO, A2C, REINFORCE, DQN, SAC with real MLP policies", "LoggingCallback, ProgressBarCallback, CallbackList, ConsoleBackend, TensorBoardBackend (tmp dir), video recorder incl. pygame rendering of CartPole",
+                 "CartPole / Pendulum under TimeLimit, SimMDP under TimeLimit"],
+        "stub": ["RecordingBackend", "SimExecutor (parked real thread, released at plan-chosen points)", "simulated datetime for the run name", "SimMDP in some classes"],
     },
 }
